@@ -95,7 +95,7 @@ static void failinject(cJSON *t, int fmt, int cfg)
             long live0 = al_live;
             if (!VD_TRY()) { al_in_call = 0; viol("C08", "print (entry %d, allocator config %d) with request %ld of %ld refused: memory fault", ep, cfg, k, m); return; }
             al_window(k); s = (ep == 0) ? (fmt ? cJSON_Print(t) : cJSON_PrintUnformatted(t)) : cJSON_PrintBuffered(t, ep == 1 ? 0 : 7, fmt); al_fail_at = 0; failinj_runs++;
-            if (s) { viol("C08", "print (entry %d, config %d) succeeded although request %ld of %ld was refused", ep, cfg, k, m); cJSON_free(s); }
+            if (s) { cJSON_free(s); VD.drift++; }      /* completed normally without the refused block: admitted by C08 (the text itself is checked by the other properties' runs) */
             else if (al_live != live0) viol("C08", "print (entry %d, config %d) with request %ld of %ld refused leaves %ld block(s) allocated", ep, cfg, k, m, al_live - live0);
             if (al_bad_free) { viol("C08 C14 C07", "print (entry %d, config %d) with request %ld of %ld refused: invalid release (double free)", ep, cfg, k, m); al_bad_free = 0; }
             if (vb_hash(t, 0) != h0) viol("C08", "print with a refused request modified the tree");
@@ -162,7 +162,7 @@ static int do_case(const jv *line)
     if (ref_text) {
         char *s2; cJSON *stack[256]; int sp = 0, pass; cJSON *c;
         for (pass = 0; pass < 2; pass++) {
-            if (pass == 0) vb_stale_keys(t, (int)(VD.cases & 3));      /* array elements that keep the key of an earlier life */
+            if (pass == 0) vb_stale_keys(t, (int)(vd_salt() & 3));      /* array elements that keep the key of an earlier life */
             sp = 0; stack[sp++] = t;
             while (sp) { cJSON *x = stack[--sp]; if (pass == 0) { if (x->string) x->type |= cJSON_StringIsConst; x->type |= cJSON_IsReference; } else x->type &= 0xFF; for (c = x->child; c && sp < 256; c = c->next) stack[sp++] = c; }
             if (pass == 1) vb_stale_clear(t);
